@@ -143,3 +143,34 @@ func thorN(c *core.Ctx, quick, thorough int) int {
 	}
 	return quick
 }
+
+// RunBattery calls every global function of the generated program again after
+// the program has finished (twice, with different integer arguments; closure
+// parameters get a small lambda, returned closures are applied) and judges each
+// call against the reference evaluator continuing from its own final state.
+func RunBattery(res *core.Result, g *lang.G, ref *lang.R, genv *lang.Env, s *SutRun, text string, args []int64, context string) {
+	for _, f := range g.TopFns {
+		if _, ok := genv.M[f.Name]; !ok {
+			continue // not defined because the program failed earlier
+		}
+		for _, arg := range args {
+			call := []*lang.N{lang.BatteryCall(f, arg)}
+			bt := lang.Plain.Program(call)
+			ref.Trace, s.Trace = nil, nil
+			ref.Steps = 0
+			bv, berr := ref.Run(call, genv)
+			if berr != nil && berr.Kind == "budget" {
+				// the reference state is now ahead of the interpreter's: stop here
+				res.Ev("battery_stopped_ref_budget", 1)
+				return
+			}
+			bo := s.Eval(bt, int64(400*ref.Steps+100000))
+			res.Evals++
+			res.Ev("battery_calls", 1)
+			if key, detail := CompareRun(bv, berr, ref.Trace, bo, s.Trace); key != "" {
+				res.Violate("battery:"+key, fmt.Sprintf("after the program%s, %s: %s", context, strings.TrimSpace(bt), detail), text+bt)
+				return
+			}
+		}
+	}
+}
